@@ -53,7 +53,8 @@ InitWith(n, t, skp0, reg0, kk0, pc0) ==
   /\ code = 0 /\ sconc = 1
   /\ stops = 0 /\ concs = 0 /\ raises = 0 /\ uecs = 0 /\ run2s = 0
 
-\* design check: every configuration of flags; item counts K or K-1; initial concurrency 1 or 2
+\* design check: every configuration of the skippable / registered flags; K items per source; Pipeline.concurrency 1
+\* (the recorded traces and the generated scenarios also vary item counts 0..K and initial concurrencies)
 Init == \E s \in [1..NP -> BOOLEAN], r \in [1..NP -> BOOLEAN], k \in [1..NP -> {K}], c \in [1..NP -> {1}] :
            InitWith(NP, TT, s, r, k, c)
 
